@@ -1,5 +1,41 @@
+/-
+  C06 -- Include merging: `DictReader._merge_includes` / `_merge_includes_recursive` (repaired, fix D14).
+  Model: `mergeIncludesRec`, `mergeIncludes`, `readFile`, `removeIncludeKeys`, `spellJoin`, `resolveSpelled` (Model/Reader.lean).
+
+    (step)  `inclStep`, `mergeIncludesRec_succ`   the body of the `for` loop as a definition of its own (the recursive call a
+                                    parameter); `mergeIncludesRec (fuel+1)` is the `foldlM` of it (by `rfl`)
+    a  `C06_cut_edge` (`_cycle`, `_missing`, `_fold`, `C06_all_cut`)
+                                    an include whose resolved target is on the chain of ancestors, or not in the file system,
+                                    leaves the accumulator (merged includes, counter) unchanged; the loop goes on
+    b  `inclStep_live`, `readFile_anchor`, `C06_anchor`, `C06_anchor_norm`, `C06_anchor_abs`, `spellJoin_abs`,
+       `C06_anchor_nested`          the path looked up is `resolve(joinpath(dir, name))`, `dir` the directory of the file that
+                                    contains the directive (for nested files: `joinpath(dir, name).parent`); for relative
+                                    names this is `joinNorm (resolve dir) (components of name)`; absolute names ignore `dir`
+    c  `Chain`, `C06_chain_bound` (pigeonhole), `Chain.extend`, `C06_fuel_pos`, `C06_call_invariant`,
+       `fuel_step`, `C06_fuel_mono`, `C06_fuel_suffices`, `mergeIncludes_fuel`
+                                    the chain consists of distinct existing paths, so it is never longer than `fs.length`; with
+                                    the initial fuel `fs.length + 1` at least one unit is left at every call, and the result is
+                                    the result for every larger fuel: the bound never ends the recursion (finite graphs,
+                                    cycles included, terminate with the full answer)
+    d  `readFile_off`, `C06_off`, `removeIncludeKeys_spec`, `removeIncludeKeys_no_placeholder`, `removeIncludeKeys_keeps`
+                                    `includes := false`: nothing merged, no include entry in the data
+    e  `C06_flat`, `C06_flat_data`, `C06_parent_wins`, `C06_earlier_include_wins`
+                                    one level of includes: result = `parent.merge(temp)`, `temp` the left fold of `merge` over
+                                    the included dicts; the including file wins, an earlier include wins over a later one.
+                                    Helper of independent use: `clean_spec` (`_clean` keeps unique keys unique and every
+                                    top-level non-dict entry whose key is not a comment/include placeholder — no `NoPh`
+                                    hypothesis, which a file with includes never satisfies)
+       `C06_eq_fold_statement : Prop`   general case (nested): stated, not proved — correspondence check
+
+  Hypotheses added in (e): the value is not a dict (dicts are merged key by key: `C07.merge_lookup`), the key is not a
+  placeholder key (`_clean` may delete duplicate placeholder entries), the value is not a reference to its own key
+  (`a $a` is a placeholder the merge overwrites, fix D15), keys of the parsed dicts are unique (true of every Python dict;
+  the association-list model admits duplicates).
+  Non-vacuity: `exFs` (nested include, cycle, missing file, `..`), evaluated in the kernel.
+-/
 import DictIO.Model.Reader
 import DictIO.Props.C07
+import DictIO.Props.C04
 
 namespace DictIO.C06
 open DictIO
@@ -88,3 +124,764 @@ theorem C06_all_cut (fs : FS) (comments : Bool) (fuel : Nat) (ancestors : List C
       rw [List.foldlM_cons, C06_cut_edge _ _ _ _ _ _ _ (hl e List.mem_cons_self)]
       exact ih acc fun e' he' => hl e' (List.mem_cons_of_mem _ he')
   rw [this _ _ h]; rfl
+
+/-! ## b. the target is anchored at the directory of the including file -/
+
+/-- a live edge: the file parsed is `joinpath(dir, name)` with `dir` the directory of the file that contains the directive,
+    found in the file system under its resolved path; what it includes itself is resolved against *its* directory
+    `joinpath(dir, name).parent` -/
+theorem inclStep_live (fs : FS) (comments : Bool) (recur) (ancestors : List Comps) (dir : Comps) (acc : SD × Counter)
+    (e : Nat × InclEntry) {b : FileBody}
+    (h1 : ancestors.contains (resolveSpelled (spellJoin dir e.2.file)) = false)
+    (h2 : fs.get (resolveSpelled (spellJoin dir e.2.file)) = some b) :
+    inclStep fs comments recur ancestors dir acc e =
+      (parseFile fs comments acc.2 (spellJoin dir e.2.file)).bind fun r =>
+        if r.1.incl.isEmpty then pure (acc.1.merge (.sd r.1), r.2)
+        else (recur (ancestors ++ [resolveSpelled (spellJoin dir e.2.file)]) r.1 (spellJoin dir e.2.file).dropLast r.2).bind
+          fun n => pure ((acc.1.merge (.sd n.1)).merge (.sd n.1), n.2) := by
+  simp only [inclStep, h1, h2]
+  rfl
+
+/-- the top-level call: the includes of the file read are resolved against the directory of that file -/
+theorem readFile_anchor (ev : Str → EvalResult) (fs : FS) (o : ReadOpts) (c : Counter) (p : Comps) (h : o.includes = true) :
+    readFile ev fs o c p =
+      (parseFile fs o.comments c p).bind fun r =>
+        (mergeIncludes fs o.comments r.1 p.dropLast r.2).bind fun r' =>
+          (evalExpressions ev r'.1).bind fun sd =>
+            if !o.scope.isEmpty && !pathExists sd.data o.scope then pure .exit1
+            else pure (.ok (let sd := if o.scope.isEmpty then sd else sd.reduceScope o.scope
+                            if o.order then sd.order else sd) r'.2) := by
+  simp only [readFile, h, if_true]
+  rfl
+
+theorem spellJoin_abs_eq (dir : Comps) (name : Str) (h : name.head? = some '/') :
+    spellJoin dir name = (splitSlash name).filter fun c => c != ['.'] := by
+  simp [spellJoin, h]
+
+/-- an absolute name ignores the directory -/
+theorem spellJoin_abs (dir dir' : Comps) (name : Str) (h : name.head? = some '/') :
+    spellJoin dir name = spellJoin dir' name := by
+  rw [spellJoin_abs_eq dir name h, spellJoin_abs_eq dir' name h]
+
+theorem spellJoin_rel (dir : Comps) (name : Str) (h : name.head? ≠ some '/') :
+    spellJoin dir name = dir ++ (splitSlash name).filter fun c => c != ['.'] := by
+  simp [spellJoin, h]
+
+theorem joinNorm_append (a x y : Comps) : joinNorm a (x ++ y) = joinNorm (joinNorm a x) y := by
+  simp [joinNorm, List.foldl_append]
+
+theorem joinNorm_nil (a : Comps) : joinNorm a [] = a := rfl
+
+theorem joinNorm_cons (a : Comps) (c : Str) (l : Comps) :
+    joinNorm a (c :: l) = joinNorm (if c == ['.', '.'] then a.dropLast else if c == ['.'] then a else a ++ [c]) l := rfl
+
+/-- `.` components do not matter -/
+theorem joinNorm_filter_dot : ∀ (l a : Comps), joinNorm a (l.filter fun c => c != ['.']) = joinNorm a l
+  | [], _ => rfl
+  | c :: l, a => by
+    by_cases h : c = ['.']
+    · subst h
+      simp only [List.filter_cons, bne_self_eq_false, Bool.false_eq_true, if_false, joinNorm_cons]
+      rw [joinNorm_filter_dot l a]
+      simp
+    · have : (c != ['.']) = true := by simpa using h
+      simp only [List.filter_cons, this, if_true, joinNorm_cons]
+      exact joinNorm_filter_dot l _
+
+/-- a path without `.`/`..` components is its own resolution -/
+theorem joinNorm_noDots : ∀ (l a : Comps), (∀ c ∈ l, isDots c = false) → joinNorm a l = a ++ l
+  | [], a, _ => by simp [joinNorm_nil]
+  | c :: l, a, h => by
+    have hc := h c List.mem_cons_self
+    simp only [isDots, Bool.or_eq_false_iff, beq_eq_false_iff_ne] at hc
+    have h1 : (c == ['.', '.']) = false := by simpa using hc.2
+    have h2 : (c == ['.']) = false := by simpa using hc.1
+    rw [joinNorm_cons, h1, h2]
+    simp only [Bool.false_eq_true, if_false]
+    rw [joinNorm_noDots l _ fun c' hc' => h c' (List.mem_cons_of_mem _ hc')]
+    simp
+
+theorem resolveSpelled_norm {p : Comps} (h : NormComps p) : resolveSpelled p = p := by
+  simpa [resolveSpelled] using joinNorm_noDots p [] fun c hc => (h c hc).2.1
+
+/-- **C06 (anchor).** for a relative name the path looked up is the directory of the including file (resolved) followed by
+    the components of the name, `.` dropped and `..` popping a component -/
+theorem C06_anchor (dir : Comps) (name : Str) (h : name.head? ≠ some '/') :
+    resolveSpelled (spellJoin dir name) = joinNorm (resolveSpelled dir) (splitSlash name) := by
+  rw [spellJoin_rel dir name h, resolveSpelled, joinNorm_append, joinNorm_filter_dot]
+  rfl
+
+/-- … and when the directory is a normalised path (as the resolved path of a file is), it is `normpath(dir / name)` -/
+theorem C06_anchor_norm {dir : Comps} (hd : NormComps dir) (name : Str) (h : name.head? ≠ some '/') :
+    resolveSpelled (spellJoin dir name) = joinNorm dir (splitSlash name) := by
+  rw [C06_anchor dir name h, resolveSpelled_norm hd]
+
+/-- an absolute name: the directory plays no role -/
+theorem C06_anchor_abs (dir : Comps) (name : Str) (h : name.head? = some '/') :
+    resolveSpelled (spellJoin dir name) = joinNorm [] (splitSlash name) := by
+  rw [spellJoin_abs_eq dir name h, resolveSpelled, joinNorm_filter_dot]
+
+/-- the directory handed to the nested call is the directory part of `joinpath(dir, name)`: a file included from
+    `sub/inc.dict` resolves its own includes against `dir/sub`, not against `dir` -/
+theorem C06_anchor_nested (dir : Comps) (name : Str) (h : name.head? ≠ some '/')
+    (hne : ((splitSlash name).filter fun c => c != ['.']) ≠ []) :
+    (spellJoin dir name).dropLast = dir ++ ((splitSlash name).filter fun c => c != ['.']).dropLast := by
+  rw [spellJoin_rel dir name h, List.dropLast_append_of_ne_nil hne]
+
+example : (spellJoin ["top".toList] "sub/inc.dict".toList).dropLast = ["top".toList, "sub".toList] := by decide
+example : resolveSpelled (spellJoin ["top".toList, "sub".toList] "../other/x.dict".toList)
+    = ["top".toList, "other".toList, "x.dict".toList] := by decide
+
+/-! ## d. `includes=False` -/
+
+/-- with `includes := false` nothing is merged: the file is parsed, its expressions are evaluated, and the include
+    placeholder entries are removed from the (top level of the) data -/
+theorem readFile_off (ev : Str → EvalResult) (fs : FS) (o : ReadOpts) (c : Counter) (p : Comps) (h : o.includes = false) :
+    readFile ev fs o c p =
+      (parseFile fs o.comments c p).bind fun r =>
+        (evalExpressions ev r.1).bind fun sd =>
+          if !o.scope.isEmpty && !pathExists sd.data o.scope then pure .exit1
+          else
+            let sd := if o.scope.isEmpty then sd else sd.reduceScope o.scope
+            let sd := if o.order then sd.order else sd
+            pure (.ok { sd with data := removeIncludeKeys sd.data } r.2) := by
+  simp only [readFile, h]
+  rfl
+
+theorem mem_tails_append {α} (x : List α) : ∀ pre : List α, x ∈ tails (pre ++ x)
+  | [] => by cases x <;> simp [tails]
+  | a :: pre => by
+    simp only [List.cons_append, tails, List.mem_cons]
+    exact Or.inr (mem_tails_append x pre)
+
+theorem isPrefixOf_append_self (a b : Str) : a.isPrefixOf (a ++ b) = true := by
+  induction a with
+  | nil => simp
+  | cons x a ih => simp [ih]
+
+/-- the test `re.search("INCLUDE[0-9;]+", key)` finds every occurrence of `INCLUDE` followed by a digit -/
+theorem containsPhDigits_of_occurrence (pre post : Str) (d : Char) (hd : '0' ≤ d ∧ d ≤ '9') :
+    removeIncludeKeys.containsPhDigits kwIncl (pre ++ kwIncl ++ d :: post) = true := by
+  simp only [removeIncludeKeys.containsPhDigits, List.any_eq_true]
+  refine ⟨kwIncl ++ d :: post, ?_, ?_⟩
+  · rw [List.append_assoc]; exact mem_tails_append _ pre
+  · rw [isPrefixOf_append_self]
+    simp [hd]
+
+/-- **C06 (off), keys.** what `_remove_include_keys` leaves has no string key in which `INCLUDE` is followed by a digit -/
+theorem removeIncludeKeys_spec (es : Entries) :
+    ∀ e ∈ removeIncludeKeys es, ∀ k, e.1 = .str k → ∀ pre post d, ('0' ≤ d ∧ d ≤ '9') → k ≠ pre ++ kwIncl ++ d :: post := by
+  intro e he k hk pre post d hd heq
+  simp only [removeIncludeKeys, List.mem_filter] at he
+  rw [hk] at he
+  have := he.2
+  simp only [Bool.not_eq_true'] at this
+  rw [heq, containsPhDigits_of_occurrence pre post d hd] at this
+  cases this
+
+theorem padSix_shape (i : Nat) : ∃ d r, padSix i = d :: r ∧ ('0' ≤ d ∧ d ≤ '9') := by
+  have hall : ∀ d ∈ padSix i, '0' ≤ d ∧ d ≤ '9' := by
+    intro d hd
+    simp only [padSix, List.mem_append, List.mem_replicate] at hd
+    rcases hd with ⟨_, rfl⟩ | hd
+    · decide
+    · have := C04.natDigits_ascii i d hd
+      simp only [C04.IsAsciiDigit, List.mem_cons, List.not_mem_nil, or_false] at this
+      rcases this with rfl | rfl | rfl | rfl | rfl | rfl | rfl | rfl | rfl | rfl <;> decide
+  cases h : padSix i with
+  | nil =>
+    have : natDigits i = [] := by
+      simp only [padSix, List.append_eq_nil_iff] at h
+      exact h.2
+    exact absurd this (C04.natDigits_ne_nil i)
+  | cons d r => exact ⟨d, r, rfl, hall d (by rw [h]; exact List.mem_cons_self)⟩
+
+/-- … in particular no include placeholder `INCLUDE%06d` -/
+theorem removeIncludeKeys_no_placeholder (es : Entries) (i : Nat) (v : Val) :
+    (Key.str (kwIncl ++ padSix i), v) ∉ removeIncludeKeys es := by
+  intro he
+  obtain ⟨d, r, hp, hd⟩ := padSix_shape i
+  exact removeIncludeKeys_spec es _ he _ rfl [] r d hd (by rw [hp]; rfl)
+
+/-- the entries it keeps are entries of the input, in order -/
+theorem removeIncludeKeys_sublist (es : Entries) : (removeIncludeKeys es).Sublist es := List.filter_sublist
+
+/-- it removes nothing else: an entry whose key does not contain `INCLUDE` stays -/
+theorem removeIncludeKeys_keeps {es : Entries} {e : Key × Val} (he : e ∈ es)
+    (h : ∀ k, e.1 = .str k → isInfix kwIncl k = false) : e ∈ removeIncludeKeys es := by
+  simp only [removeIncludeKeys, List.mem_filter]
+  refine ⟨he, ?_⟩
+  cases hk : e.1 with
+  | int z => rfl
+  | str k =>
+    have := h k hk
+    simp only [isInfix, List.any_eq_false] at this
+    simp only [Bool.not_eq_true', removeIncludeKeys.containsPhDigits, List.any_eq_false, Bool.and_eq_true, not_and]
+    intro t ht hp
+    exact absurd hp (this t ht)
+
+/-- **C06 (off).** the data returned with `includes := false`: no include entry, and nothing merged — it is the evaluated
+    data of the file itself (reduced / ordered as asked) minus the include keys -/
+theorem C06_off (ev : Str → EvalResult) (fs : FS) (o : ReadOpts) (c : Counter) (p : Comps) (h : o.includes = false)
+    {sd : SD} {c' : Counter} (hr : readFile ev fs o c p = .ok (.ok sd c')) :
+    ∃ parsed evald, parseFile fs o.comments c p = .ok (parsed, c') ∧ evalExpressions ev parsed = .ok evald ∧
+      sd.data = removeIncludeKeys
+        (let s := if o.scope.isEmpty then evald else evald.reduceScope o.scope
+         if o.order then s.order else s).data ∧
+      ∀ e ∈ sd.data, ∀ k, e.1 = .str k → ∀ pre post d, ('0' ≤ d ∧ d ≤ '9') → k ≠ pre ++ kwIncl ++ d :: post := by
+  rw [readFile_off ev fs o c p h] at hr
+  cases hp : parseFile fs o.comments c p with
+  | error x => rw [hp] at hr; cases hr
+  | ok r =>
+    rw [hp] at hr
+    cases hev : evalExpressions ev r.1 with
+    | error x => simp only [Except.bind, hev] at hr; cases hr
+    | ok evald =>
+      simp only [Except.bind, hev] at hr
+      split at hr
+      · cases hr
+      · simp only [pure, Except.pure, Except.ok.injEq, ReadOut.ok.injEq] at hr
+        obtain ⟨h1, h2⟩ := hr
+        subst h1 h2
+        exact ⟨r.1, evald, rfl, hev, rfl, removeIncludeKeys_spec _⟩
+
+/-! ## c. the fuel `fs.length + 1` suffices: termination on every finite include graph -/
+
+/-- the invariant of the chain of ancestors: pairwise distinct resolved paths of files that exist -/
+structure Chain (fs : FS) (ancestors : List Comps) : Prop where
+  nodup : ancestors.Nodup
+  inFs : ∀ a ∈ ancestors, (fs.get a).isSome = true
+
+theorem Chain.nil (fs : FS) : Chain fs [] := ⟨List.nodup_nil, fun _ h => by cases h⟩
+
+theorem mem_keys_of_get {fs : FS} {a : Comps} (h : (fs.get a).isSome = true) : a ∈ fs.map (·.1) := by
+  simp only [FS.get, Option.isSome_map, List.find?_isSome] at h
+  obtain ⟨x, hx, hxa⟩ := h
+  have : x.1 = a := by simpa using hxa
+  exact this ▸ List.mem_map_of_mem hx
+
+theorem eraseDups_length_le {α} [BEq α] : ∀ (n : Nat) (l : List α), l.length ≤ n → l.eraseDups.length ≤ l.length
+  | _, [], _ => by simp
+  | 0, _ :: _, h => by simp at h
+  | n + 1, a :: l, h => by
+    rw [List.eraseDups_cons]
+    have h1 : (l.filter fun b => !b == a).length ≤ l.length := List.length_filter_le _ _
+    have h2 := eraseDups_length_le n (l.filter fun b => !b == a) (by simp at h; omega)
+    simp only [List.length_cons]
+    omega
+
+/-- **pigeonhole.** the chain is never longer than the number of distinct paths of the file system -/
+theorem C06_chain_bound {fs : FS} {ancestors : List Comps} (h : Chain fs ancestors) :
+    ancestors.length ≤ (fs.map (·.1)).eraseDups.length ∧ (fs.map (·.1)).eraseDups.length ≤ fs.length := by
+  constructor
+  · apply List.Nodup.length_le_of_subset h.nodup
+    intro a ha
+    exact List.mem_eraseDups.mpr (mem_keys_of_get (h.inFs a ha))
+  · have := eraseDups_length_le _ (fs.map (·.1)) (Nat.le_refl _)
+    simpa using this
+
+theorem C06_chain_le {fs : FS} {ancestors : List Comps} (h : Chain fs ancestors) : ancestors.length ≤ fs.length :=
+  Nat.le_trans (C06_chain_bound h).1 (C06_chain_bound h).2
+
+/-- a live edge extends the chain by a path that is not on it and is in the file system -/
+theorem Chain.extend {fs : FS} {ancestors : List Comps} (h : Chain fs ancestors) {t : Comps} {b : FileBody}
+    (h1 : ancestors.contains t = false) (h2 : fs.get t = some b) : Chain fs (ancestors ++ [t]) := by
+  have hnot : t ∉ ancestors := by simpa using h1
+  constructor
+  · rw [List.nodup_append]
+    refine ⟨h.nodup, by simp, ?_⟩
+    intro a ha b' hb' e
+    rw [List.mem_singleton] at hb'
+    exact hnot (hb' ▸ e ▸ ha)
+  · intro a ha
+    rcases List.mem_append.mp ha with ha | ha
+    · exact h.inFs a ha
+    · rw [List.mem_singleton] at ha; rw [ha, h2]; rfl
+
+/-- **the invariant lemma.** wherever the recursion stands with a chain of distinct existing files and the fuel that
+    is left of the initial `fs.length + 1`, at least one unit of fuel is left: the `0` branch is not taken -/
+theorem C06_fuel_pos {fs : FS} {ancestors : List Comps} (h : Chain fs ancestors) {k : Nat}
+    (hk : ancestors.length + k = fs.length + 1) : k ≥ 1 := by
+  have := C06_chain_le h
+  omega
+
+/-- … and the invariant is handed on: the recursive call for a live edge is made with the chain extended by one and the
+    fuel decreased by one (see `inclStep_live` for the call itself) -/
+theorem C06_call_invariant {fs : FS} {ancestors : List Comps} (h : Chain fs ancestors) {fuel : Nat}
+    (hk : ancestors.length + (fuel + 1) = fs.length + 1) {t : Comps} {b : FileBody}
+    (h1 : ancestors.contains t = false) (h2 : fs.get t = some b) :
+    Chain fs (ancestors ++ [t]) ∧ (ancestors ++ [t]).length + fuel = fs.length + 1 ∧ fuel ≥ 1 := by
+  have hc := h.extend h1 h2
+  have hl : (ancestors ++ [t]).length + fuel = fs.length + 1 := by simp; omega
+  exact ⟨hc, hl, C06_fuel_pos hc hl⟩
+
+/-- the step depends on the recursive call only at live edges -/
+theorem inclStep_congr (fs : FS) (comments : Bool) (r1 r2) (ancestors : List Comps) (dir : Comps)
+    (h : ∀ t b, ancestors.contains t = false → fs.get t = some b → ∀ sd d c, r1 (ancestors ++ [t]) sd d c = r2 (ancestors ++ [t]) sd d c)
+    (acc : SD × Counter) (e : Nat × InclEntry) :
+    inclStep fs comments r1 ancestors dir acc e = inclStep fs comments r2 ancestors dir acc e := by
+  cases h1 : ancestors.contains (resolveSpelled (spellJoin dir e.2.file)) with
+  | true => rw [C06_cut_edge_cycle _ _ _ _ _ _ _ h1, C06_cut_edge_cycle _ _ _ _ _ _ _ h1]
+  | false =>
+    cases h2 : fs.get (resolveSpelled (spellJoin dir e.2.file)) with
+    | none => rw [C06_cut_edge_missing _ _ _ _ _ _ _ h2, C06_cut_edge_missing _ _ _ _ _ _ _ h2]
+    | some b =>
+      rw [inclStep_live _ _ _ _ _ _ _ h1 h2, inclStep_live _ _ _ _ _ _ _ h1 h2]
+      congr 1
+      funext r
+      rw [h _ b h1 h2]
+
+/-- one more unit of fuel changes nothing once the fuel covers the files not yet on the chain -/
+theorem fuel_step (fs : FS) (comments : Bool) : ∀ (n : Nat) (ancestors : List Comps), Chain fs ancestors →
+    fs.length + 1 ≤ ancestors.length + n → ∀ parent dir c,
+    mergeIncludesRec fs comments (n + 1) ancestors parent dir c = mergeIncludesRec fs comments n ancestors parent dir c
+  | 0, ancestors, hch, hn, _, _, _ => by
+    have := C06_chain_le hch
+    omega
+  | n + 1, ancestors, hch, hn, parent, dir, c => by
+    rw [mergeIncludesRec_succ, mergeIncludesRec_succ]
+    have : inclStep fs comments (mergeIncludesRec fs comments (n + 1)) ancestors dir =
+        inclStep fs comments (mergeIncludesRec fs comments n) ancestors dir := by
+      funext acc e
+      apply inclStep_congr
+      intro t b h1 h2 sd d c'
+      exact fuel_step fs comments n (ancestors ++ [t]) (hch.extend h1 h2) (by simp; omega) sd d c'
+    rw [this]
+
+/-- **C06 (fuel suffices).** with the initial fuel `fs.length + 1` (in general: with fuel that covers the files not on the
+    chain) the result is the result for *every* larger fuel: the bound is never what ends the recursion -/
+theorem C06_fuel_mono (fs : FS) (comments : Bool) {ancestors : List Comps} (hch : Chain fs ancestors) {n : Nat}
+    (hn : fs.length + 1 ≤ ancestors.length + n) (parent : SD) (dir : Comps) (c : Counter) :
+    ∀ m, n ≤ m → mergeIncludesRec fs comments m ancestors parent dir c = mergeIncludesRec fs comments n ancestors parent dir c := by
+  intro m hm
+  induction m with
+  | zero => have : n = 0 := by omega
+            subst this; rfl
+  | succ m ih =>
+    by_cases h : n = m + 1
+    · subst h; rfl
+    · rw [fuel_step fs comments m ancestors hch (by omega)]
+      exact ih (by omega)
+
+theorem C06_fuel_suffices (fs : FS) (comments : Bool) (parent : SD) (dir : Comps) (c : Counter) (m : Nat)
+    (hm : fs.length + 1 ≤ m) :
+    mergeIncludesRec fs comments m [] parent dir c = mergeIncludesRec fs comments (fs.length + 1) [] parent dir c :=
+  C06_fuel_mono fs comments (Chain.nil fs) (by simp) parent dir c m hm
+
+/-- `_merge_includes` with any fuel from `fs.length + 1` on -/
+def mergeIncludesWith (fuel : Nat) (fs : FS) (comments : Bool) (parent : SD) (dir : Comps) (c : Counter) :
+    Except ParseErr (SD × Counter) := do
+  let (p, c) ← mergeIncludesRec fs comments fuel [] parent dir c
+  pure (p.merge (.sd p), c)
+
+theorem mergeIncludes_fuel (fs : FS) (comments : Bool) (parent : SD) (dir : Comps) (c : Counter) (m : Nat)
+    (hm : fs.length + 1 ≤ m) :
+    mergeIncludesWith m fs comments parent dir c = mergeIncludes fs comments parent dir c := by
+  simp only [mergeIncludesWith, mergeIncludes, C06_fuel_suffices fs comments parent dir c m hm]
+
+/-! ## e. one level of includes (flat graph): precedence on the data -/
+
+/-! #### `_clean` keeps every entry that is not a comment/include placeholder -/
+
+/-- the loop of `_clean_data` for one class of placeholder keys (the local `step` of `cleanLevel`) -/
+def cleanStep {α} [BEq α] (sel : Key → Bool) (lvl : Entries) (tbl : Tbl α) : Entries × Tbl α :=
+  let cand := (keys lvl).filter sel
+  let r := cand.foldl (fun (acc : Entries × Tbl α × List α) k =>
+    let (d, t, seen) := acc
+    match k with
+    | .str x =>
+      (match firstSixDigits x with
+      | none => acc
+      | some i => match t.get? i with
+        | none => acc
+        | some txt =>
+          if seen.contains txt then (delKey k d, t.del i, seen) else (d, t, seen ++ [txt]))
+    | _ => acc) (lvl, tbl, [])
+  (r.1, r.2.1)
+
+def selB (k : Key) : Bool := match k with | .str x => containsPh kwBlock x | _ => false
+def selI (k : Key) : Bool := match k with | .str x => !containsPh kwBlock x && containsPh kwIncl x | _ => false
+def selL (k : Key) : Bool := match k with
+  | .str x => !containsPh kwBlock x && !containsPh kwIncl x && containsPh kwLine x | _ => false
+
+theorem cleanLevel_snd (s : SD) (lvl : Entries) :
+    (cleanLevel s lvl).2 =
+      (cleanStep selL (cleanStep selI (cleanStep selB lvl s.blockC).1 s.incl).1 s.lineC).1 := rfl
+
+theorem selB_ph {k : Key} (h : selB k = true) : C07.isPhKey k = true := by
+  cases k <;> simp_all [selB, C07.isPhKey]
+theorem selI_ph {k : Key} (h : selI k = true) : C07.isPhKey k = true := by
+  cases k <;> simp_all [selI, C07.isPhKey]
+theorem selL_ph {k : Key} (h : selL k = true) : C07.isPhKey k = true := by
+  cases k <;> simp_all [selL, C07.isPhKey]
+
+/-- a property of the level that deleting a placeholder key preserves is preserved by the loop -/
+theorem cleanStep_inv {α} [BEq α] (P : Entries → Prop)
+    (hdel : ∀ k d, C07.isPhKey k = true → P d → P (delKey k d))
+    (sel : Key → Bool) (hsel : ∀ k, sel k = true → C07.isPhKey k = true) (lvl : Entries) (tbl : Tbl α) (h : P lvl) :
+    P (cleanStep sel lvl tbl).1 := by
+  unfold cleanStep
+  have hc : ∀ k ∈ (keys lvl).filter sel, C07.isPhKey k = true := fun k hk => hsel k (List.mem_filter.mp hk).2
+  generalize (keys lvl).filter sel = cand at hc
+  suffices H : ∀ (acc : Entries × Tbl α × List α), P acc.1 →
+      P (cand.foldl (fun (acc : Entries × Tbl α × List α) k =>
+        let (d, t, seen) := acc
+        match k with
+        | .str x =>
+          (match firstSixDigits x with
+          | none => acc
+          | some i => match t.get? i with
+            | none => acc
+            | some txt =>
+              if seen.contains txt then (delKey k d, t.del i, seen) else (d, t, seen ++ [txt]))
+        | _ => acc) acc).1 from H (lvl, tbl, []) h
+  induction cand with
+  | nil => intro acc h; exact h
+  | cons k cand ih =>
+    intro acc hacc
+    rw [List.foldl_cons]
+    apply ih (fun k' hk' => hc k' (List.mem_cons_of_mem _ hk'))
+    obtain ⟨d, t, seen⟩ := acc
+    have hk := hc k List.mem_cons_self
+    cases k with
+    | int z => exact hacc
+    | str x =>
+      dsimp only
+      split
+      · exact hacc
+      · split
+        · exact hacc
+        · split
+          · exact hdel _ _ hk hacc
+          · exact hacc
+
+theorem cleanLevel_inv (P : Entries → Prop) (hdel : ∀ k d, C07.isPhKey k = true → P d → P (delKey k d))
+    (s : SD) (lvl : Entries) (h : P lvl) : P (cleanLevel s lvl).2 := by
+  rw [cleanLevel_snd]
+  exact cleanStep_inv P hdel _ (fun _ => selL_ph) _ _
+    (cleanStep_inv P hdel _ (fun _ => selI_ph) _ _ (cleanStep_inv P hdel _ (fun _ => selB_ph) _ _ h))
+
+theorem lookup_delKey_ne {k k' : Key} (h : k' ≠ k) : ∀ es : Entries, lookup k' (delKey k es) = lookup k' es
+  | [] => rfl
+  | (k0, v0) :: es => by
+    by_cases h0 : k0 = k
+    · subst h0
+      have : ¬ k0 = k' := fun e => h e.symm
+      simp [delKey, lookup, this]
+    · by_cases h1 : k0 = k'
+      · subst h1; simp [delKey, lookup, h0]
+      · simp [delKey, lookup, h0, h1, lookup_delKey_ne h es]
+
+/-- `_clean_data` on one level: what is left is a sub-list of the level, and every key that is not a placeholder key
+    keeps its value -/
+theorem cleanLevel_spec (s : SD) (lvl : Entries) :
+    (cleanLevel s lvl).2.Sublist lvl ∧ ∀ k, C07.isPhKey k = false → lookup k (cleanLevel s lvl).2 = lookup k lvl := by
+  refine cleanLevel_inv (fun d => d.Sublist lvl ∧ ∀ k, C07.isPhKey k = false → lookup k d = lookup k lvl) ?_ s lvl
+    ⟨List.Sublist.refl _, fun _ _ => rfl⟩
+  intro k d hk ⟨h1, h2⟩
+  refine ⟨(C07.delKey_sublist k d).trans h1, fun k' hk' => ?_⟩
+  rw [lookup_delKey_ne (fun e => by rw [e, hk] at hk'; cases hk'), h2 k' hk']
+
+/-- the loop of `_clean` over the dict-valued entries of a level writes cleaned sub-dicts back under keys of the level:
+    the key list stays, and so does every value that is not a dict (keys unique) -/
+theorem cleanRec_fold_spec (fuel : Nat) (lvl1 : Entries) (hn : (keys lvl1).Nodup) :
+    ∀ (l : Entries) (acc : SD × Entries), (∀ e ∈ l, e ∈ lvl1) → keys acc.2 = keys lvl1 →
+      (∀ k v, v.isDict = false → lookup k lvl1 = some v → lookup k acc.2 = some v) →
+      let r := l.foldl (fun (acc : SD × Entries) e =>
+          match e.2 with
+          | .dict sub => ((cleanRec fuel acc.1 sub).1, setKey e.1 (.dict (cleanRec fuel acc.1 sub).2) acc.2)
+          | _ => acc) acc
+      keys r.2 = keys lvl1 ∧ ∀ k v, v.isDict = false → lookup k lvl1 = some v → lookup k r.2 = some v := by
+  intro l
+  induction l with
+  | nil => intro acc _ h1 h2; exact ⟨h1, h2⟩
+  | cons e l ih =>
+    intro acc hsub h1 h2
+    rw [List.foldl_cons]
+    apply ih _ (fun e' he' => hsub e' (List.mem_cons_of_mem _ he'))
+    · obtain ⟨k0, v0⟩ := e
+      cases v0 with
+      | leaf x => exact h1
+      | list xs => exact h1
+      | dict sub =>
+        have hmem : (k0, Val.dict sub) ∈ lvl1 := hsub _ List.mem_cons_self
+        have : k0 ∈ keys acc.2 := by rw [h1]; exact List.mem_map_of_mem (f := (·.1)) hmem
+        dsimp only
+        rw [C07.keys_setKey_of_mem _ _ _ this, h1]
+    · obtain ⟨k0, v0⟩ := e
+      cases v0 with
+      | leaf x => exact h2
+      | list xs => exact h2
+      | dict sub =>
+        have hmem : (k0, Val.dict sub) ∈ lvl1 := hsub _ List.mem_cons_self
+        intro k v hv hl
+        dsimp only
+        rw [C07.lookup_setKey]
+        by_cases hk : k0 = k
+        · subst hk
+          have := lookup_of_mem_nodup hn hmem
+          rw [hl] at this
+          cases this
+          simp [Val.isDict] at hv
+        · simp only [hk, if_false]; exact h2 k v hv hl
+
+theorem cleanRec_spec (fuel : Nat) (s : SD) (lvl : Entries) (hn : (keys lvl).Nodup) :
+    (keys (cleanRec fuel s lvl).2).Nodup ∧
+      ∀ k v, C07.isPhKey k = false → v.isDict = false → lookup k lvl = some v → lookup k (cleanRec fuel s lvl).2 = some v := by
+  cases fuel with
+  | zero => exact ⟨hn, fun _ _ _ _ h => h⟩
+  | succ fuel =>
+    have hl := cleanLevel_spec s lvl
+    have hn1 : (keys (cleanLevel s lvl).2).Nodup := (hl.1.map (·.1)).nodup hn
+    have := cleanRec_fold_spec fuel (cleanLevel s lvl).2 hn1 (cleanLevel s lvl).2 ((cleanLevel s lvl).1, (cleanLevel s lvl).2)
+      (fun _ h => h) rfl (fun _ _ _ h => h)
+    simp only [cleanRec]
+    refine ⟨this.1 ▸ hn1, fun k v hk hv h => this.2 k v hv ?_⟩
+    rw [hl.2 k hk]; exact h
+
+/-- **`_clean` and the data.** unique keys stay unique, and a top-level entry that is neither a comment/include placeholder
+    nor a dict keeps its value -/
+theorem clean_spec (s : SD) (hn : (keys s.data).Nodup) :
+    (keys s.clean.data).Nodup ∧
+      ∀ k v, C07.isPhKey k = false → v.isDict = false → lookup k s.data = some v → lookup k s.clean.data = some v := by
+  have h : s.clean.data = (cleanRec (depthV (.dict s.data) + 1) s s.data).2 := rfl
+  rw [h]
+  exact cleanRec_spec _ s s.data hn
+
+/-! #### `SDict.merge` on the data, through `_clean` -/
+
+theorem nodup_keys_mergeD (top : Bool) (exprs : Tbl ExprEntry) : ∀ (b a : Entries), (keys a).Nodup →
+    (keys (mergeD top exprs a b)).Nodup
+  | [], a, h => by rw [C07.mergeD_nil]; exact h
+  | (k, v) :: b, a, h => by
+    rw [C07.mergeD_cons]
+    apply nodup_keys_mergeD top exprs b
+    rw [C07.keys_mstep]
+    cases hk : hasKey k a with
+    | true => simpa using h
+    | false =>
+      have hk' : k ∉ keys a := C07.hasKey_false_iff.mp hk
+      simp only [Bool.false_eq_true, if_false]
+      exact List.nodup_append.mpr ⟨h, by simp, by intro x hx y hy; simp at hy; subst hy; exact fun e => hk' (e ▸ hx)⟩
+
+/-- the data of `s.merge(a)` before `_clean` -/
+theorem merge_data (s : SD) (a : Arg) :
+    (s.merge a).data = (({ s with data := mergeD true s.exprs s.data a.data }).postMerge a).clean.data := rfl
+
+theorem merge_nodup (s : SD) (a : Arg) (hn : (keys s.data).Nodup) : (keys (s.merge a).data).Nodup := by
+  rw [merge_data]
+  apply (clean_spec _ _).1
+  rw [C07.postMerge_data]
+  exact nodup_keys_mergeD true s.exprs a.data s.data hn
+
+/-- the receiver of `merge` wins: a top-level entry of it that is not a dict, not a placeholder entry and not a
+    self-reference placeholder (`a $a`) is still there afterwards -/
+theorem merge_receiver_wins (s : SD) (a : Arg) (hn : (keys s.data).Nodup) {k : Key} {v : Val}
+    (hk : C07.isPhKey k = false) (hv : v.isDict = false) (hs : selfRef s.exprs k v = false)
+    (h : lookup k s.data = some v) : lookup k (s.merge a).data = some v := by
+  rw [merge_data]
+  apply (clean_spec _ _).2 k v hk hv
+  · rw [C07.postMerge_data]
+    exact C07.merge_keeps true s.exprs k v a.data s.data h hv (by simp [hs])
+  · rw [C07.postMerge_data]
+    exact nodup_keys_mergeD true s.exprs a.data s.data hn
+
+/-- a key the receiver does not have is taken from the argument -/
+theorem merge_adds (s : SD) (a : Arg) (hn : (keys s.data).Nodup) (ha : (keys a.data).Nodup) {k : Key} {v : Val}
+    (hk : C07.isPhKey k = false) (hv : v.isDict = false)
+    (h : lookup k s.data = none) (h' : lookup k a.data = some v) : lookup k (s.merge a).data = some v := by
+  rw [merge_data]
+  apply (clean_spec _ _).2 k v hk hv
+  · rw [C07.postMerge_data]
+    show lookup k (mergeD true s.exprs s.data a.data) = some v
+    rw [C07.merge_lookup true s.exprs s.data a.data ha k, h, h']
+  · rw [C07.postMerge_data]
+    exact nodup_keys_mergeD true s.exprs a.data s.data hn
+
+/-! #### the flat case -/
+
+/-- the included files parsed in the order of the directives, the counter threaded through -/
+def parseIncls (fs : FS) (comments : Bool) (dir : Comps) : List (Nat × InclEntry) → Counter → Except ParseErr (List SD × Counter)
+  | [], c => .ok ([], c)
+  | e :: es, c => match parseFile fs comments c (spellJoin dir e.2.file) with
+    | .error x => .error x
+    | .ok r => match parseIncls fs comments dir es r.2 with
+      | .error x => .error x
+      | .ok rs => .ok (r.1 :: rs.1, rs.2)
+
+/-- `temp`: the included dicts merged into an empty dict, in order -/
+def mergeAll (incs : List SD) (t : SD) : SD := incs.foldl (fun t i => t.merge (.sd i)) t
+
+/-- every include is a live edge -/
+def Live (fs : FS) (ancestors : List Comps) (dir : Comps) (l : List (Nat × InclEntry)) : Prop :=
+  ∀ e ∈ l, ancestors.contains (resolveSpelled (spellJoin dir e.2.file)) = false ∧
+    (fs.get (resolveSpelled (spellJoin dir e.2.file))).isSome = true
+
+theorem flat_fold (fs : FS) (comments : Bool) (recur) (ancestors : List Comps) (dir : Comps) :
+    ∀ (l : List (Nat × InclEntry)) (acc : SD × Counter) (incs : List SD) (c' : Counter),
+      Live fs ancestors dir l → parseIncls fs comments dir l acc.2 = .ok (incs, c') → (∀ i ∈ incs, i.incl.isEmpty = true) →
+      l.foldlM (inclStep fs comments recur ancestors dir) acc = .ok (mergeAll incs acc.1, c')
+  | [], acc, incs, c', _, hp, _ => by
+    simp only [parseIncls, Except.ok.injEq, Prod.mk.injEq] at hp
+    obtain ⟨rfl, rfl⟩ := hp
+    rfl
+  | e :: l, acc, incs, c', hl, hp, hi => by
+    obtain ⟨h1, h2⟩ := hl e List.mem_cons_self
+    obtain ⟨b, h2⟩ := Option.isSome_iff_exists.mp h2
+    rw [List.foldlM_cons, inclStep_live _ _ _ _ _ _ _ h1 h2]
+    simp only [parseIncls] at hp
+    cases hpf : parseFile fs comments acc.2 (spellJoin dir e.2.file) with
+    | error x => rw [hpf] at hp; cases hp
+    | ok r =>
+      rw [hpf] at hp
+      dsimp only at hp
+      cases hrest : parseIncls fs comments dir l r.2 with
+      | error x => rw [hrest] at hp; cases hp
+      | ok rs =>
+        rw [hrest] at hp
+        dsimp only at hp
+        simp only [Except.ok.injEq, Prod.mk.injEq] at hp
+        obtain ⟨rfl, rfl⟩ := hp
+        have hr : r.1.incl.isEmpty = true := hi _ List.mem_cons_self
+        simp only [Except.bind, hr, if_true, bind, pure, Except.pure]
+        exact flat_fold fs comments recur ancestors dir l (acc.1.merge (.sd r.1), r.2) rs.1 rs.2
+          (fun e' he' => hl e' (List.mem_cons_of_mem _ he')) hrest (fun i hi' => hi i (List.mem_cons_of_mem _ hi'))
+
+/-- **C06 (flat case).** a file whose includes all exist, are off the chain and include nothing themselves: the result is
+    the file merged (`SDict.merge`, first wins) with `temp`, the left fold of `merge` over the included dicts in the order
+    of the directives -/
+theorem C06_flat (fs : FS) (comments : Bool) (fuel : Nat) (ancestors : List Comps) (parent : SD) (dir : Comps) (c : Counter)
+    {incs : List SD} {c' : Counter}
+    (hl : Live fs ancestors dir parent.incl) (hp : parseIncls fs comments dir parent.incl c = .ok (incs, c'))
+    (hi : ∀ i ∈ incs, i.incl.isEmpty = true) :
+    mergeIncludesRec fs comments (fuel + 1) ancestors parent dir c = .ok (parent.merge (.sd (mergeAll incs {})), c') := by
+  rw [mergeIncludesRec_succ, flat_fold fs comments _ ancestors dir parent.incl (({} : SD), c) incs c' hl hp hi]
+  rfl
+
+/-- … and its data is `_recursive_merge(parent, temp)` cleaned -/
+theorem C06_flat_data (parent : SD) (incs : List SD) :
+    (parent.merge (.sd (mergeAll incs {}))).data =
+      (({ parent with data := mergeD true parent.exprs parent.data (mergeAll incs {}).data }).postMerge
+        (.sd (mergeAll incs {}))).clean.data := rfl
+
+theorem mergeAll_nodup : ∀ (incs : List SD) (t : SD), (keys t.data).Nodup → (keys (mergeAll incs t).data).Nodup
+  | [], _, h => h
+  | i :: incs, t, h => mergeAll_nodup incs (t.merge (.sd i)) (merge_nodup t (.sd i) h)
+
+/-- an entry that is in `temp` at some point stays: later includes do not overwrite it -/
+theorem mergeAll_keeps {k : Key} {v : Val} (hk : C07.isPhKey k = false) (hv : v.isDict = false)
+    (hs : ∀ exprs, selfRef exprs k v = false) :
+    ∀ (incs : List SD) (t : SD), (keys t.data).Nodup → lookup k t.data = some v → lookup k (mergeAll incs t).data = some v
+  | [], _, _, h => h
+  | i :: incs, t, hn, h =>
+    mergeAll_keeps hk hv hs incs (t.merge (.sd i)) (merge_nodup t (.sd i) hn)
+      (merge_receiver_wins t (.sd i) hn hk hv (hs _) h)
+
+/-- **C06 (the including file wins).** a top-level entry of the including file (not a dict — dicts are merged key by key,
+    `C07.merge_lookup` —, not a comment/include placeholder entry, not a self-reference placeholder) has the same
+    value in the result, whatever the includes define for that key -/
+theorem C06_parent_wins (parent : SD) (incs : List SD) (hn : (keys parent.data).Nodup) {k : Key} {v : Val}
+    (hk : C07.isPhKey k = false) (hv : v.isDict = false) (hs : selfRef parent.exprs k v = false)
+    (h : lookup k parent.data = some v) :
+    lookup k (parent.merge (.sd (mergeAll incs {}))).data = some v :=
+  merge_receiver_wins parent _ hn hk hv hs h
+
+/-- **C06 (an earlier include wins over a later one).** a top-level entry of the `n`-th included file whose key none of
+    the earlier includes and not the including file defines has the same value in the result, whatever the later
+    includes define.  (`hs`: the value is not a reference to its own key; automatically true for non-strings.) -/
+theorem C06_earlier_include_wins (parent : SD) (pre post : List SD) (inc : SD) (hn : (keys parent.data).Nodup)
+    (hni : (keys inc.data).Nodup) {k : Key} {v : Val}
+    (hk : C07.isPhKey k = false) (hv : v.isDict = false) (hs : ∀ exprs, selfRef exprs k v = false)
+    (hparent : lookup k parent.data = none) (hpre : lookup k (mergeAll pre {}).data = none)
+    (h : lookup k inc.data = some v) :
+    lookup k (parent.merge (.sd (mergeAll (pre ++ inc :: post) {}))).data = some v := by
+  have hnpre : (keys (mergeAll pre {}).data).Nodup := mergeAll_nodup pre {} List.nodup_nil
+  have hall : mergeAll (pre ++ inc :: post) {} = mergeAll post ((mergeAll pre {}).merge (.sd inc)) := by
+    simp [mergeAll, List.foldl_append]
+  have h1 : lookup k ((mergeAll pre {}).merge (.sd inc)).data = some v :=
+    merge_adds _ (.sd inc) hnpre hni hk hv hpre h
+  have h2 : lookup k (mergeAll (pre ++ inc :: post) {}).data = some v := by
+    rw [hall]
+    exact mergeAll_keeps hk hv hs post _ (merge_nodup _ _ hnpre) h1
+  exact merge_adds parent (.sd (mergeAll (pre ++ inc :: post) {})) hn (mergeAll_nodup _ {} List.nodup_nil) hk hv hparent h2
+
+/-- a non-string value refers to nothing -/
+theorem selfRef_nonstring (exprs : Tbl ExprEntry) (k : Key) {v : Val} (h : ∀ s, v ≠ .leaf (.str s)) : selfRef exprs k v = false := by
+  unfold selfRef
+  split
+  · rename_i ks vs; exact absurd rfl (h vs)
+  · rfl
+
+/-! ## the general statement -/
+
+/-- the depth-first preorder of the include closure, as parsed dicts: for every live include of `parent`, the included
+    file followed by its own closure (fuel-bounded like the model) -/
+def closure (fs : FS) (comments : Bool) : Nat → List Comps → SD → Comps → Counter → Except ParseErr (List SD × Counter)
+  | 0, _, _, _, c => .ok ([], c)
+  | fuel + 1, ancestors, parent, dir, c =>
+    parent.incl.foldlM (fun (acc : List SD × Counter) e =>
+      let spelled := spellJoin dir e.2.file
+      let target := resolveSpelled spelled
+      if ancestors.contains target then pure acc
+      else match fs.get target with
+        | none => pure acc
+        | some _ => do
+          let (included, c) ← parseFile fs comments acc.2 spelled
+          let (sub, c) ← closure fs comments fuel (ancestors ++ [target]) included spelled.dropLast c
+          pure (acc.1 ++ included :: sub, c)) ([], c)
+
+/-- **C06 (general statement, not proved here).** the data of the result is the data of the first-wins fold of
+    `_recursive_merge` over the including file followed by the depth-first preorder of its whole include closure.
+    Proved above for the flat graph (`C06_flat`, with the consequences `C06_parent_wins`, `C06_earlier_include_wins`);
+    for nested includes the model merges the nested result twice (`temp.merge(nested); temp.merge(included)` on the same
+    object) and `_clean` runs at every level, so the equation needs merge associativity modulo `_clean`, which the model
+    does not carry in general (dict-valued keys are merged recursively).  The general case is decided by the
+    correspondence check (model vs. `DictReader.read` on generated include graphs). -/
+def C06_eq_fold_statement : Prop :=
+  ∀ (fs : FS) (comments : Bool) (parent : SD) (dir : Comps) (c : Counter) (r : SD) (c' : Counter),
+    mergeIncludesRec fs comments (fs.length + 1) [] parent dir c = .ok (r, c') →
+    ∃ incs, closure fs comments (fs.length + 1) [] parent dir c = .ok (incs, c') ∧
+      ∀ k, C07.isPhKey k = false →
+        lookup k r.data = lookup k (incs.foldl (fun d i => mergeD true parent.exprs d i.data) parent.data)
+
+/-! ## non-vacuity: an include graph with a nested include, a cycle, a missing file and a `..` spelling (JSON bodies) -/
+
+section Examples
+
+/-- `/d/main.json` includes `a.json` and `sub/b.json`; `a.json` includes `main.json` back (cycle);
+    `sub/b.json` includes `../a.json` (anchored at `/d/sub`) and a file that does not exist -/
+def exFs : FS :=
+  [ (["d".toList, "main.json".toList], .json
+      [(.str "#include".toList, .leaf (.str "a.json".toList)), (.str "#include 2".toList, .leaf (.str "sub/b.json".toList)),
+       (.str "x".toList, .leaf (.int 1))]),
+    (["d".toList, "a.json".toList], .json
+      [(.str "x".toList, .leaf (.int 2)), (.str "y".toList, .leaf (.int 3)),
+       (.str "#include".toList, .leaf (.str "main.json".toList))]),
+    (["d".toList, "sub".toList, "b.json".toList], .json
+      [(.str "y".toList, .leaf (.int 4)), (.str "z".toList, .leaf (.int 5)),
+       (.str "#include".toList, .leaf (.str "../a.json".toList)),
+       (.str "#include 2".toList, .leaf (.str "nothere.json".toList))]) ]
+
+def dataOf : Except ParseErr ReadOut → Option Entries
+  | .ok (.ok sd _) => some sd.data
+  | _ => none
+
+/-- the including file wins (`x = 1`), the earlier include wins over the later one (`y = 3`), a key only a nested
+    file has arrives (`z = 5`); the cycle and the missing file stop nothing -/
+example :
+    (dataOf (readFile evalInt exFs {} none ["d".toList, "main.json".toList])).map
+        (fun d => (lookup (.str "x".toList) d, lookup (.str "y".toList) d, lookup (.str "z".toList) d)) =
+      some (some (.leaf (.int 1)), some (.leaf (.int 3)), some (.leaf (.int 5))) := by decide +kernel
+
+/-- `includes := false`: only the file's own entries, no include entry -/
+example :
+    dataOf (readFile evalInt exFs { includes := false } none ["d".toList, "main.json".toList]) =
+      some [(.str "x".toList, .leaf (.int 1))] := by decide +kernel
+
+/-- more fuel gives the same result -/
+example : (mergeIncludesWith 10 exFs true {} [] none).isOk = (mergeIncludes exFs true {} [] none).isOk := by
+  rw [mergeIncludes_fuel _ _ _ _ _ 10 (by decide)]
+
+end Examples
+
+end DictIO.C06
